@@ -107,7 +107,7 @@ def cases(ctx):
                         "copier": False, "defines": {}, "api": True, "cli": mapping is not None, "symfile": True,
                         "src": "start:\n.dw start\n.dl start\nlda.l start\nsecond:\n.dl second\n", "spec": {"t": "c12"}})
     # one contiguous block longer than an IPS record can hold (split into records), with and without the copier header
-    blob = [(i * 7 + 3) & 0xFF for i in range(0x10005 if tier == "quick" else 0x20003)]
+    blob = [(i * 7 + 3) & 0xFF for i in range(0x10005)]     # two records; stays below the size limit for shipped files
     for copier in (False, True):
         out.append({"kind": f"long-block:{copier}", "rom": "low", "mapping": "low", "format": "ips", "copier": copier, "defines": {},
                     "files": {"big.bin": blob}, "src": "*=0x008000\nstart:\n.incbin 'big.bin'\nend:\n.dl start, end\n",
